@@ -222,3 +222,7 @@ func VH_C05_ops() {
 	}
 	zz.Reach("end")
 }
+
+// VItems exposes the queue's items without locking (exporter for harness
+// predicates evaluated by the scheduler).
+func (q *TaskQueue) VItems() []task.Task { return q.items }
